@@ -177,7 +177,16 @@ struct World {
         b->respond(a->id_alloc_ + 1, res);                         // an id that has not been issued yet
         b->respond(1000, 55);                                      // error reply with an id never issued
         pb->sendResult(0, res); pb->sendError(0, 55);              // id 0
-        pb->sendResult(-1, res); } break;                          // a negative id
+        pb->sendResult(-1, res);                                   // a negative id
+        // ids that differ from an ISSUED id by a multiple of 2^32 (equal to it after truncation to 32 bits): unknown ids like any other
+        for (int i = 0; i <= issued; i++) {
+          int id = i == issued ? a->id_alloc_ : peer_ids[i] >= 0 ? peer_ids[i] : wire_ids[i]; if (id <= 0) continue;
+          for (int64_t off : {(int64_t)1 << 32, -((int64_t)1 << 32), (int64_t)3 << 32}) {
+            Json m = Json::object(); m["jsonrpc"] = "2.0"; m["id"] = (int64_t)id + off; m["result"] = res; pb->sendJson(m);
+            Json e = Json::object(); e["jsonrpc"] = "2.0"; e["id"] = (int64_t)id + off; e["error"]["code"] = 55; pb->sendJson(e); }
+          Json u = Json::object(); u["jsonrpc"] = "2.0"; u["id"] = (uint64_t)id + ((uint64_t)0xffffffffu << 32); u["result"] = res; pb->sendJson(u); }
+        if (a_peer_id > 0) { Json m = Json::object(); m["jsonrpc"] = "2.0"; m["id"] = (int64_t)a_peer_id + ((int64_t)1 << 32); m["result"] = res; pa->sendJson(m); }   // and in the other direction
+        } break;
       case ADV: for (int s = 0; s < g_adv_steps; s++) { g_mono_ms += 1000; pass(); } break;
       case REINIT: { a->cleanup();
         // the transport keeps delivering while the Rpc is gone (its borrowed proto has no receive callbacks now): a result and an
@@ -247,6 +256,9 @@ struct Lane {
     return i;
   }
   void respond(int i) { execs++; Json res = Json::object(); res["r"] = i; b->respond(rq[i].peer_id, res); }
+  // a response whose id equals request i's id only after truncation to 32 bits: an unknown id
+  void respond_wrapped(int i) { execs++; Json res = Json::object(); res["r"] = 9999; Json m = Json::object(); m["jsonrpc"] = "2.0"; m["id"] = (int64_t)rq[i].peer_id + ((int64_t)1 << 32); m["result"] = res; pb->sendJson(m);
+    Json e = Json::object(); e["jsonrpc"] = "2.0"; e["id"] = (int64_t)rq[i].peer_id - ((int64_t)1 << 32); e["error"]["code"] = 9999; pb->sendJson(e); }
   void advance() { tick++; g_mono_ms += 1000; execs++; loop->runNext([] {}); loop->runLoop(Loop::Mode::kOnce); }
 };
 static long g_lane_states = 0, g_lane_execs = 0, g_lane_viols = 0;
@@ -273,6 +285,7 @@ static void run_lane(const std::string &proto, const std::string &engine, int tm
     { Virt vt; Lane w(proto, engine, tmo); snprintf(tag, sizeof tag, "L1 %s/%s timeout=%d N=%d", proto.c_str(), engine.c_str(), tmo, N);
       for (int i = 0; i < N; i++) w.issue();
       w.hook = [&](int idx, int) { if (idx == 0) for (int k = 0; k < 15; k++) w.issue(); };
+      for (int i = 0; i < N; i++) w.respond_wrapped(i);                          // ids +-2^32 away from the pending ones: ignored
       w.respond(0);
       for (int i = N - 1; i >= 1; i--) w.respond(i);
       for (int i = 0; i < N; i++) w.respond(i);                                  // duplicates
@@ -357,7 +370,7 @@ int main(int argc, char **argv) {
   ex.show = [](const Op &o) { char b[96];
     if (o.k == REQ) snprintf(b, sizeof b, "request(%s)", BEHN[o.a]);
     else if (o.k == RSP) snprintf(b, sizeof b, "deliver(#%d,%s)", o.a, o.b ? "error" : "result");
-    else if (o.k == UNK) snprintf(b, sizeof b, "deliver(future-id,id1000-error,id0,id0-error,id-1)");
+    else if (o.k == UNK) snprintf(b, sizeof b, "deliver(future-id,id1000-error,id0,id0-error,id-1,issued-ids+-k*2^32)");
     else if (o.k == REINIT) snprintf(b, sizeof b, "cleanup+deliveries-while-down+initialize");
     else if (o.k == BREQ) snprintf(b, sizeof b, "peer-requests");
     else if (o.k == BRSP) snprintf(b, sizeof b, "answer-peer-request");
